@@ -59,7 +59,7 @@ func replay(c *core.Ctx, raw json.RawMessage) error {
 
 var atomVals = []int{0, 300, 1, 301, 2, 70000} // 0 = the zero value; >= 256 are boxed on the heap by Go
 
-func randAtomOp(r *core.Rand) Op { return randAtomOpN(r, len(atomVals)) }
+func randAtomOp(r *core.Rand) Op  { return randAtomOpN(r, len(atomVals)) }
 func randAtomOp2(r *core.Rand) Op { return randAtomOpN(r, 2) } // universe {0, 300}: CompareAndSwap often succeeds
 
 func randAtomOpN(r *core.Rand, nv int) Op {
